@@ -18,6 +18,7 @@ From GeosV.Gen Require RP_Overlaps_initDim RP_Overlaps_isDetermined RP_Overlaps_
 From GeosV.Gen Require RP_Touches_initDim RP_Touches_isDetermined RP_Touches_valueIM.
 From GeosV.Gen Require RP_Intersects_initEnv RP_Intersects_updateDimension RP_Intersects_finish.
 From GeosV.Gen Require RP_Disjoint_initEnv RP_Disjoint_updateDimension RP_Disjoint_finish.
+From GeosV.Gen Require TP_requireInteraction TP_requireCovers RP_Disjoint_requireInteraction RP_EqualsTopo_requireInteraction.
 From GeosV.C01 Require Import IMGen.
 Import ListNotations.
 Require Import ZifyBool.
@@ -35,10 +36,12 @@ Record vtable := {
   vt_reqCovers : bool -> bool;
   vt_reqInteraction : bool }.
 
-(* TopologyPredicate defaults (include/geos/operation/relateng/TopologyPredicate.h): init(env,env) does nothing,
-   requireCovers = false, requireInteraction = true *)
+(* TopologyPredicate defaults (include/geos/operation/relateng/TopologyPredicate.h): init(env,env) has an empty body (hand
+   stated); requireCovers and requireInteraction are the GENERATED default virtuals, and the two overrides of
+   requireInteraction (Disjoint, EqualsTopo) are generated too *)
 Definition dflt_initEnv (st : pst) (_ _ : envl) : pst := st.
-Definition dflt_reqCovers (_ : bool) : bool := false.
+Definition dflt_reqCovers : bool -> bool := TP_requireCovers.m_requireCovers_1.
+Definition dflt_reqInteraction : bool := TP_requireInteraction.m_requireInteraction_0.
 
 Definition im_vt initDim initEnv isDet valIM reqCov reqInt : vtable :=
   {| vt_initDim := initDim; vt_initEnv := initEnv;
@@ -46,28 +49,28 @@ Definition im_vt initDim initEnv isDet valIM reqCov reqInt : vtable :=
      vt_finish := IP_finish.m_finish_0 valIM; vt_reqCovers := reqCov; vt_reqInteraction := reqInt |}.
 
 Definition vt_contains := im_vt RP_Contains_initDim.m_init_2 RP_Contains_initEnv.m_init_2 RP_Contains_isDetermined.m_isDetermined_0
-  RP_Contains_valueIM.m_valueIM_0 RP_Contains_requireCovers.m_requireCovers_1 true.
+  RP_Contains_valueIM.m_valueIM_0 RP_Contains_requireCovers.m_requireCovers_1 dflt_reqInteraction.
 Definition vt_within := im_vt RP_Within_initDim.m_init_2 RP_Within_initEnv.m_init_2 RP_Within_isDetermined.m_isDetermined_0
-  RP_Within_valueIM.m_valueIM_0 RP_Within_requireCovers.m_requireCovers_1 true.
+  RP_Within_valueIM.m_valueIM_0 RP_Within_requireCovers.m_requireCovers_1 dflt_reqInteraction.
 Definition vt_covers := im_vt RP_Covers_initDim.m_init_2 RP_Covers_initEnv.m_init_2 RP_Covers_isDetermined.m_isDetermined_0
-  RP_Covers_valueIM.m_valueIM_0 RP_Covers_requireCovers.m_requireCovers_1 true.
+  RP_Covers_valueIM.m_valueIM_0 RP_Covers_requireCovers.m_requireCovers_1 dflt_reqInteraction.
 Definition vt_coveredBy := im_vt RP_CoveredBy_initDim.m_init_2 RP_CoveredBy_initEnv.m_init_2 RP_CoveredBy_isDetermined.m_isDetermined_0
-  RP_CoveredBy_valueIM.m_valueIM_0 RP_CoveredBy_requireCovers.m_requireCovers_1 true.
+  RP_CoveredBy_valueIM.m_valueIM_0 RP_CoveredBy_requireCovers.m_requireCovers_1 dflt_reqInteraction.
 Definition vt_crosses := im_vt RP_Crosses_initDim.m_init_2 dflt_initEnv RP_Crosses_isDetermined.m_isDetermined_0
-  RP_Crosses_valueIM.m_valueIM_0 dflt_reqCovers true.
+  RP_Crosses_valueIM.m_valueIM_0 dflt_reqCovers dflt_reqInteraction.
 Definition vt_overlaps := im_vt RP_Overlaps_initDim.m_init_2 dflt_initEnv RP_Overlaps_isDetermined.m_isDetermined_0
-  RP_Overlaps_valueIM.m_valueIM_0 dflt_reqCovers true.
+  RP_Overlaps_valueIM.m_valueIM_0 dflt_reqCovers dflt_reqInteraction.
 Definition vt_touches := im_vt RP_Touches_initDim.m_init_2 dflt_initEnv RP_Touches_isDetermined.m_isDetermined_0
-  RP_Touches_valueIM.m_valueIM_0 dflt_reqCovers true.
+  RP_Touches_valueIM.m_valueIM_0 dflt_reqCovers dflt_reqInteraction.
 Definition vt_equals := im_vt RP_EqualsTopo_initDim.m_init_2 RP_EqualsTopo_initEnv.m_init_2 RP_EqualsTopo_isDetermined.m_isDetermined_0
-  RP_EqualsTopo_valueIM.m_valueIM_0 dflt_reqCovers false.
+  RP_EqualsTopo_valueIM.m_valueIM_0 dflt_reqCovers RP_EqualsTopo_requireInteraction.m_requireInteraction_0.
 Definition basic_initDim (st : pst) (_ _ : Z) : pst := st.       (* TopologyPredicate::init(int,int) default *)
 Definition vt_intersects : vtable :=
   {| vt_initDim := basic_initDim; vt_initEnv := RP_Intersects_initEnv.m_init_2; vt_update := RP_Intersects_updateDimension.m_updateDimension_3;
-     vt_finish := RP_Intersects_finish.m_finish_0; vt_reqCovers := dflt_reqCovers; vt_reqInteraction := true |}.
+     vt_finish := RP_Intersects_finish.m_finish_0; vt_reqCovers := dflt_reqCovers; vt_reqInteraction := dflt_reqInteraction |}.
 Definition vt_disjoint : vtable :=
   {| vt_initDim := basic_initDim; vt_initEnv := RP_Disjoint_initEnv.m_init_2; vt_update := RP_Disjoint_updateDimension.m_updateDimension_3;
-     vt_finish := RP_Disjoint_finish.m_finish_0; vt_reqCovers := dflt_reqCovers; vt_reqInteraction := false |}.
+     vt_finish := RP_Disjoint_finish.m_finish_0; vt_reqCovers := dflt_reqCovers; vt_reqInteraction := RP_Disjoint_requireInteraction.m_requireInteraction_0 |}.
 
 Definition GEOM_A : bool := RP_Contains_requireCovers.g_GEOM_A.
 Definition GEOM_B : bool := negb GEOM_A.
